@@ -13,8 +13,12 @@ EXPLANATION = ("real bit_to_number / number_to_bit / dna_to_number / number_to_d
                "arithmetic, and the integer-typed path) on symbolic bit vectors of L bits, DNA strings of n nucleotides and numbers below "
                "2^L / 4^n given as symbolic ints and as symbolic decimal strings: values, round trips, agreement of the two paths, left padding")
 STUBS = []
-ASSUMPTIONS = ["bit arrays are given as Python lists of 0/1 (the documented type) and as shim arrays; numbers as canonical decimal strings",
-               "numpy int64 overflow is outside the bounds (values < 2^16)"]
+ASSUMPTIONS = ["bit arrays are given as Python lists of 0/1 (the documented type); numbers as canonical decimal strings",
+               "machine numbers: numpy int64 results wrap around (modelled exactly with mod 2^64 when the interval analysis cannot exclude overflow) and "
+               "an integer converted to binary64 by a true division is rounded half-even exactly (values < 2^64); the wide integer-typed jobs "
+               "(56/64 bits, 28..33 nucleotides) exist to reach these regimes; their inputs are mostly concrete (first 3 and last 5 symbols symbolic, two fixed "
+               "patterns for the rest, the free symbols enumerated exhaustively) because nested divisions over dozens of free variables are out of reach for "
+               "linear integer arithmetic"]
 BUDGET_S = {"quick": 900, "thorough": 7200}
 
 
@@ -41,6 +45,15 @@ def jobs(tier):
     for D in DS:
         J.append(dict(side="str2bit", D=D))
         J.append(dict(side="str2dna", D=D))
+    # wide integer-typed paths: beyond 2^53 (binary64) and 2^63 (int64) -- machine-number pitfalls
+    for L in ((56,) if tier == "quick" else (54, 56, 64)):
+        for pat in ("max", "mix"):
+            J.append(dict(side="bits", L=L, int_only=True, pattern=pat))
+            J.append(dict(side="int2bit", L=L, pattern=pat))
+    for n in ((33,) if tier == "quick" else (28, 32, 33)):
+        for pat in ("max", "mix"):
+            J.append(dict(side="dna", n=n, int_only=True, pattern=pat))
+            J.append(dict(side="int2dna", n=n, pattern=pat))
     return J
 
 
@@ -50,24 +63,49 @@ def bounds(tier):
             "decimal strings": "<= %d digits" % max(j.get("D", 0) for j in js), "outside": "longer inputs (rest on C15's digit-serial helpers)"}
 
 
+def wide_positions(n):
+    """wide inputs are mostly concrete: only the first 3 and the last 5 symbols are symbolic (nested divisions over dozens of
+    free variables are out of reach for LIA); the concrete middle is a fixed pattern chosen by `pattern`."""
+    return set(list(range(0, 3)) + list(range(n - 5, n)))
+
+
+def wide_symbols(n, base, pattern, name):
+    """symbols of a wide input: a window of free symbols (first 2 / 3 and last 2 / 5) enumerated exhaustively by the solver
+    (each is concretised = forked), the rest is a fixed pattern; the path then runs on concrete machine numbers, i.e. with
+    the exact int64 / binary64 semantics of Python and numpy."""
+    sym = wide_positions(n) if base == 2 else set([0, 1, n - 2, n - 1])
+    out = []
+    for i in range(n):
+        if i in sym:
+            x = z3.Int("%s_%d" % (name, i))
+            core.eng().assume(z3.And(x >= 0, x < base))
+            out.append(z3.IntVal(core.eng().concretize(x)))
+        else:
+            out.append(z3.IntVal((base - 1) if pattern == "max" else (i * 7 + 1) % base))
+    return out
+
+
 def body(e, L, cfg):
     side = cfg["side"]
     if side == "bits":
         n = cfg["L"]
-        bs = oracles.bits(n)
-        e.assume(oracles.bits_constraints(bs))
+        bs = oracles.bits(n) if not cfg.get("int_only") else wide_symbols(n, 2, cfg.get("pattern", "max"), "m")
+        e.assume(z3.And([z3.And(b >= 0, b <= 1) for b in bs if not z3.is_int_value(b)]) if n else z3.BoolVal(True))
         val = oracles.bits_value(bs)
-        lst = [SymInt(b) for b in bs]
+        lst = [(SymInt(b) if not z3.is_int_value(b) else b.as_long()) for b in bs]
 
         def cex(m):
             return {"kind": "conv", "fn": "bits", "bits": [m.eval(b, model_completion=True).as_long() for b in bs]}
         try:
-            s = L.bit_to_number(lst, is_string=True)
             i = L.bit_to_number(list(lst), is_string=False)
-            sv, sc = c15.str_value_and_canon(s)
-            if sv is None:
-                raise TypeError("bit_to_number(is_string=True) returned %r" % type(s).__name__)
-            back_s = L.number_to_bit(s, n)
+            if cfg.get("int_only"):
+                sv, sc, back_s = val, z3.BoolVal(True), list(lst)
+            else:
+                s = L.bit_to_number(lst, is_string=True)
+                sv, sc = c15.str_value_and_canon(s)
+                if sv is None:
+                    raise TypeError("bit_to_number(is_string=True) returned %r" % type(s).__name__)
+                back_s = L.number_to_bit(s, n)
             back_i = L.number_to_bit(strs.PInt(i) if core.is_sym(i) else i, n)
         except core.Abort:
             raise
@@ -89,8 +127,14 @@ def body(e, L, cfg):
         return {"status": "ok", "sample": {"bits": [mm.eval(b, model_completion=True).as_long() for b in bs]}}
     if side == "dna":
         n = cfg["n"]
-        s, codes, cons = oracles.sym_string(n, "c")
-        e.assume(cons)
+        if cfg.get("int_only"):
+            idx = wide_symbols(n, 4, cfg.get("pattern", "max"), "c")
+            e.assume(z3.And([z3.And(x >= 0, x <= 3) for x in idx if not z3.is_int_value(x)]))
+            codes = [oracles.code_of_index(x) if not z3.is_int_value(x) else z3.IntVal(ord("ACGT"[x.as_long()])) for x in idx]
+            s = strs.mk(codes)
+        else:
+            s, codes, cons = oracles.sym_string(n, "c")
+            e.assume(cons)
         val = z3.IntVal(0)
         for c in codes:
             val = val * 4 + oracles.nuc_index(c)
@@ -98,12 +142,15 @@ def body(e, L, cfg):
         def cex(m):
             return {"kind": "conv", "fn": "dna", "dna": oracles.model_string(m, codes)}
         try:
-            a = L.dna_to_number(s, is_string=True)
             b = L.dna_to_number(s, is_string=False)
-            av, ac = c15.str_value_and_canon(a)
-            if av is None:
-                raise TypeError("dna_to_number(is_string=True) returned %r" % type(a).__name__)
-            back_a = L.number_to_dna(a, n)
+            if cfg.get("int_only"):
+                av, ac, back_a = val, z3.BoolVal(True), s
+            else:
+                a = L.dna_to_number(s, is_string=True)
+                av, ac = c15.str_value_and_canon(a)
+                if av is None:
+                    raise TypeError("dna_to_number(is_string=True) returned %r" % type(a).__name__)
+                back_a = L.number_to_dna(a, n)
             back_b = L.number_to_dna(strs.PInt(b) if core.is_sym(b) else b, n)
         except core.Abort:
             raise
@@ -130,7 +177,14 @@ def body(e, L, cfg):
         cap = 2 ** width if side == "int2bit" else 4 ** width
         v = z3.Int("v")
         e.assume(z3.And(v >= 0, v < cap))
-        arg = SymInt(v)
+        if width >= 24:
+            b_ = 2 if side == "int2bit" else 4
+            ds = wide_symbols(width, b_, cfg.get("pattern", "max"), "w")
+            vconc = sum(ds[i].as_long() * b_ ** (width - 1 - i) for i in range(width))
+            e.assume(v == vconc)
+            arg = vconc
+        else:
+            arg = SymInt(v)
         as_string = False
         vv = v
         mvars = [v]
